@@ -426,7 +426,10 @@ def _check(prop, tier, replay, spec, seed, jobs, t0, scratch, env, known):
     # ---- known-finding probes ---------------------------------------------------
     for k in known:
         tp = os.path.join(VERIF, k['replay'])
-        st = [s for s in stages if s['harness'] == k.get('harness', stages[0]['harness'])][0]
+        cand = [s for s in stages if s['harness'] == k.get('harness', stages[0]['harness'])]
+        if not cand:  # only with the RSV_ONLY_STAGE debugging filter
+            continue
+        st = cand[0]
         v, out = replay_once(exes[(st['harness'], st.get('variant', 'core'))], prop, tp, stage_env(env, st),
                              case_timeout=st.get('replay_case_timeout', 120))
         if v == 'KNOWN':
@@ -531,6 +534,25 @@ def _check(prop, tier, replay, spec, seed, jobs, t0, scratch, env, known):
                    extra=dict(known_findings=[k['key'] for k in known], violation_details=[
                        dict(replay=os.path.relpath(v['replay'], VERIF), msg=v.get('msg', '')[:1500], sample=v.get('sample', '')[:1000])
                        for v in confirmed]))
+    # a listed finding also counts as observed when the generated campaign ran into it (cases excluded by its signature)
+    seen = {}
+    for r in stage_reports:
+        for key, cnt in r['known'].items():
+            seen[key] = seen.get(key, 0) + cnt
+    for k in known:
+        if seen.get(k['key']) and not any(('[%s]' % k['key']) in l for l in known_lines):
+            known_lines.append('KNOWN-FINDING: property=%s %s [%s] (its signature excluded %d generated cases of this run)' % (
+                prop, k['what'], k['key'], seen[k['key']]))
+    keep = os.environ.get('RSV_KEEP_KNOWN')  # maintenance aid: keep the shortest generated input per listed finding (probe refresh)
+    if keep:
+        os.makedirs(keep, exist_ok=True)
+        best = {}
+        for f in glob.glob(os.path.join(scratch, 'known-*.tape')):
+            key = os.path.basename(f).rsplit('.', 2)[0]
+            if key not in best or os.path.getsize(f) < os.path.getsize(best[key]):
+                best[key] = f
+        for key, f in best.items():
+            shutil.copyfile(f, os.path.join(keep, '%s-%s.tape' % (prop, key)))
     for l in known_lines:
         print(l)
     for r in stage_reports:
